@@ -66,26 +66,43 @@ theorem roundtrip {p : Prims} (W : Laws p) (ops : List (Op p)) (s : Sender p) (r
   obtain ⟨h1, h2, h3, _, h5⟩ := roundtrip_seq W ops s r hp hok s' w log hs t
   exact ⟨h1, by rw [h1]; exact msgsOf_data ops s s.seq _ hs, h2, h3, h5⟩
 
-/-- **Any fragmentation.** `read_all(n)` on a socket whose `recv` returns arbitrary non-empty pieces and times out
-arbitrarily often returns exactly the next `n` bytes of the stream (EOF iff the stream is shorter). -/
-theorem read_all_any_chunking (data : Bytes) (sched : List Nat) (n : Int) :
-    (n.toNat ≤ data.length →
-      ∃ sc, readAll ⟨[], data, sched⟩ n = .ok (data.take n.toNat, ⟨[], data.drop n.toNat, sc⟩)) ∧
-    (data.length < n.toNat → readAll ⟨[], data, sched⟩ n = .error .eof) :=
-  readAll_spec data sched n
+/-- **Any fragmentation, any timeouts, any value of the need-rekey flag.** `read_all(n, check_rekey)` on a socket
+whose `recv` returns arbitrary non-empty pieces, times out arbitrarily often, with `__need_rekey` having any value
+at each timeout: either `NeedRekeyException` is raised — only when `check_rekey` is passed, with NOTHING consumed
+from the stream — or exactly the next `n` bytes of the stream are returned (EOF iff the stream is shorter). -/
+theorem read_all_any_chunking (data : Bytes) (sched : List Ev) (n : Int) (cr : Bool) :
+    (∃ sc, readAll ⟨[], data, sched⟩ n cr = .rekey ⟨[], data, sc⟩ ∧ cr = true ∧ sc.length < sched.length) ∨
+    ((n.toNat ≤ data.length →
+      ∃ sc, readAll ⟨[], data, sched⟩ n cr = .ok (data.take n.toNat) ⟨[], data.drop n.toNat, sc⟩) ∧
+     (data.length < n.toNat → readAll ⟨[], data, sched⟩ n cr = .err .eof)) :=
+  readAll_spec data sched n cr
+
+/-- `read_message`, called again after every `NeedRekeyException` as `Transport.run` does, returns what reading the
+plain stream returns — whatever the fragmentation, the timeouts and the need-rekey flag (a pending rekey never costs
+a byte of the stream). -/
+theorem read_message_retry_any_schedule {p : Prims} (r : Receiver p) (data : Bytes) (sched : List Ev) :
+    SimRes (readRetry r (sched.length + 1) ⟨[], data, sched⟩) (runBuf (readMessage r) data) :=
+  readRetry_sim r data (sched.length + 1) sched (Nat.lt_succ_self _)
 
 /-- **Any history over any fragmentation**: the statement of `roundtrip` for the receiver reading from a socket
-with an arbitrary `recv` schedule. -/
+with an arbitrary schedule of `recv` sizes, timeouts and need-rekey flag values (`sched : List Ev`). -/
 theorem roundtrip_any_fragmentation {p : Prims} (W : Laws p) (ops : List (Op p)) (s : Sender p) (r : Receiver p)
     (hp : PairedSt W s r) (hok : ∀ op ∈ ops, OpOk W op)
     (s' : Sender p) (w : Bytes) (log : List Auth) (hs : sendAll s ops = .ok (s', w, log))
-    (t : Bytes) (sched : List Nat) :
+    (t : Bytes) (sched : List Ev) :
     (recvAllSock r ops ⟨[], w ++ t, sched⟩).1 = msgsOf s.seq ops ∧
     (recvAllSock r ops ⟨[], w ++ t, sched⟩).1.map (fun m => m.cmd :: m.payload) = sentData ops ∧
     (recvAllSock r ops ⟨[], w ++ t, sched⟩).2.1 = none := by
   obtain ⟨h1, h2, h3, _, _⟩ := roundtrip W ops s r hp hok s' w log hs t
   obtain ⟨e1, e2⟩ := recvAllSock_eq ops r (w ++ t) sched
   exact ⟨by rw [e1, h1], by rw [e1, h2], by rw [e2, h3]⟩
+
+/-- a schedule that splits the first block around a timeout with the flag set (the situation in which a hoisted
+`len(out) == 0` test would drop bytes): the model raises `NeedRekeyException` only at the leading timeout -/
+example : (match readAll ⟨[], [1, 2, 3, 4, 5, 6, 7, 8], [.timeout true, .recv 2, .timeout true, .recv 9]⟩ 8 true with
+    | .rekey s => (s.data.length, s.sched.length) | _ => (0, 0)) = (8, 3) ∧
+    (match readAll ⟨[], [1, 2, 3, 4, 5, 6, 7, 8], [.recv 2, .timeout true, .recv 9]⟩ 8 true with
+    | .ok b s => (b.length, s.sched.length) | _ => (0, 0)) = (8, 0) := by decide
 
 /-- Every suite of the generated table meets the side conditions of `PairedSt` / `CiphPaired`:
 block size ≥ 4, AES-GCM rows carry the 16-byte tag as MAC length. -/
